@@ -608,10 +608,18 @@ impl ContinuityStore {
         continuity_id: &str,
         from_seq: u64,
     ) -> Result<Option<CompactionCheckpointForCompile>, String> {
-        if let Ok(Some(event)) = self
+        // A checkpoint frame that is being appended may already be the head the cut was taken from
+        // while the checkpoint caches do not hold it yet: answer from the stream then.
+        let cached = if self
             .stream_cache
-            .latest_compaction_checkpoint_before_or_at_seq_v1(continuity_id, from_seq)
+            .compaction_checkpoint_caches_behind_head_v1(continuity_id)
         {
+            Ok(None)
+        } else {
+            self.stream_cache
+                .latest_compaction_checkpoint_before_or_at_seq_v1(continuity_id, from_seq)
+        };
+        if let Ok(Some(event)) = cached {
             if let EventKind::ContinuityCompactionCheckpointCreated {
                 checkpoint_id,
                 summary_kind,
@@ -683,15 +691,22 @@ impl ContinuityStore {
             return Ok(Vec::new());
         }
 
-        if let Ok(Some(entries)) = self
+        // See latest_compaction_checkpoint_for_compile_v1.
+        let cached = if self
             .stream_cache
-            .hierarchical_compaction_checkpoints_before_or_at_seq_v1(
-                continuity_id,
-                from_seq,
-                max_levels,
-                Some(COMPACTION_SUMMARY_KIND_CUMULATIVE_V1),
-            )
+            .compaction_checkpoint_caches_behind_head_v1(continuity_id)
         {
+            Ok(None)
+        } else {
+            self.stream_cache
+                .hierarchical_compaction_checkpoints_before_or_at_seq_v1(
+                    continuity_id,
+                    from_seq,
+                    max_levels,
+                    Some(COMPACTION_SUMMARY_KIND_CUMULATIVE_V1),
+                )
+        };
+        if let Ok(Some(entries)) = cached {
             let mut out: Vec<CompactionCheckpointForCompile> = entries
                 .into_iter()
                 .map(|entry| CompactionCheckpointForCompile {
